@@ -189,11 +189,18 @@ def gen_harness(w, modprefix, kinds=None):
                 out += body; names.append(h)
             if inner[5] is not None:
                 h = 'singleton_%s' % nm
+                if it[4][1] == 0:
+                    # a zero-sized singleton type: a zero-sized local has no address of its own in CBMC, and Kani rejects references to
+                    # unallocated addresses — the object lives at the address of an allocated byte
+                    obj_lines = ['        let mut slot: u8 = 0;', '        let where_ = core::ptr::addr_of_mut!(slot) as usize;', '        CELL = where_;']
+                    obj_addr = 'where_'
+                else:
+                    obj_lines = ['        let mut obj: %s = core::mem::zeroed();' % nm, '        CELL = core::ptr::addr_of_mut!(obj) as usize;']
+                    obj_addr = 'core::ptr::addr_of_mut!(obj) as usize'
                 out += ['    #[kani::proof]', '    fn %s() {' % h, '      unsafe {', '        LOG_ADDR_USES = 0; CELL = 0;',
-                        '        assert!(%s::get().is_none());' % nm, '        assert_eq!(LOG_ADDR, %d);' % inner[5], '        assert_eq!(LOG_ADDR_USES, 1);',
-                        '        let mut obj: %s = core::mem::zeroed();' % nm, '        CELL = core::ptr::addr_of_mut!(obj) as usize;',
+                        '        assert!(%s::get().is_none());' % nm, '        assert_eq!(LOG_ADDR, %d);' % inner[5], '        assert_eq!(LOG_ADDR_USES, 1);'] + obj_lines + [
                         '        let r = %s::get();' % nm, '        assert!(r.is_some());',
-                        '        assert_eq!(r.unwrap() as *mut %s as usize, core::ptr::addr_of_mut!(obj) as usize);' % nm, '      }', '    }']
+                        '        assert_eq!(r.unwrap() as *mut %s as usize, %s);' % (nm, obj_addr), '      }', '    }']
                 names.append(h)
         else:
             if inner[4] is not None and inner[3]:
